@@ -34,6 +34,13 @@ class PathCut(PathAbort):
 _ctx = z3.main_ctx()
 
 
+def _short(term):
+    """a short printable stand-in for a symbolic value (constants by name, compound terms by id)"""
+    if z3.is_const(term):
+        return f"<{term}>"
+    return f"<sym#{term.get_id()}>"
+
+
 def _is_meta(x):
     return isinstance(x, (SymInt, SymReal, SymBool, int, float, bool)) and not (
         isinstance(x, z3.ExprRef) and not isinstance(x, (SymInt, SymReal, SymBool))
@@ -269,13 +276,13 @@ class _SymNum:
 
     def __format__(self, spec):
         # only ever used to build *names* and messages; the text is irrelevant to the semantics
-        return f"<{self.term}>" if not spec else f"<{self.term}:{spec}>"
+        return _short(self.term)
 
     def __str__(self):
-        return f"<{self.term}>"
+        return _short(self.term)
 
     def __repr__(self):
-        return f"{type(self).__name__}({self.term})"
+        return f"{type(self).__name__}({_short(self.term)})"
 
     def __deepcopy__(self, memo):
         return self
@@ -331,13 +338,13 @@ class SymBool(z3.BoolRef):
         return self.term.hash()
 
     def __format__(self, spec):
-        return f"<{self.term}>"
+        return _short(self.term)
 
     def __str__(self):
-        return f"<{self.term}>"
+        return _short(self.term)
 
     def __repr__(self):
-        return f"SymBool({self.term})"
+        return f"SymBool({_short(self.term)})"
 
     def __index__(self):
         raise Unsupported("symbolic bool used as index")
@@ -470,10 +477,16 @@ class Path:
         self.uid_counter = itertools.count(1)
         self.fresh_counter = itertools.count(1)
         self.stores = []  # (object, attribute) log for frame conditions
+        self.side_clauses = []  # obligations generated during the run (loop contracts, ghost state)
 
     def note_assumption(self, text):
         self.assumptions.add(text)
         self.engine.assumptions.add(text)
+
+    def add_clause(self, clause):
+        """an obligation generated during the run; it is discharged under the path condition *as it is now*"""
+        clause._pc_len = len(self.pc)
+        self.side_clauses.append(clause)
 
     def assume(self, term):
         """restrict the path (a precondition). Infeasible -> abort the path"""
@@ -587,6 +600,7 @@ class _NoPath:
 
     stores = []
     events = []
+    side_clauses = []
 
     def fresh_name(self, base):
         return f"{base}!np{next(_np_counter)}"
